@@ -157,7 +157,13 @@ class LLOneParser:
         for production in nullable_productions:
             if production.head not in llone_parsing_table:
                 llone_parsing_table[production.head] = {}
-            for first in follow_set.get(production.head, set()):
+            # A nullable body which is not empty can also begin with the
+            # first symbols of its components
+            predict_set = follow_set.get(production.head, set()).union(
+                x for x in self._get_first_set_production(production,
+                                                          first_set)
+                if x != Epsilon())
+            for first in predict_set:
                 if first not in llone_parsing_table[production.head]:
                     llone_parsing_table[production.head][first] = []
                 llone_parsing_table[production.head][first].append(
